@@ -61,14 +61,14 @@ def ref_value(kind, ids, idx, unknown=None):
 # pre-state
 # ---------------------------------------------------------------------------------------
 
-def mk_story(sid, item_ids=(), lead=1, gap=None, extra_tail=False, timing=None):
+def mk_story(sid, item_ids=(), lead=1, gap=None, extra_tail=False, timing=None, decoy=None):
     """A story whose body holds the given items, one <p> after item ``gap`` and optional
     leading paragraph (lead=3)."""
     body = []
     if lead >= 3:
         body.append(T('p', 'lead'))
     for i, iid in enumerate(item_ids):
-        body.append(B.item(iid, slug='is'))
+        body.append(B.item(iid, slug='is', extra=B.decoys(*decoy) if decoy and i == 0 else None))
         if gap is not None and gap == i:
             body.append(T('p', 'gap'))
     if extra_tail:
@@ -85,9 +85,9 @@ def pre_state(P, A):
     if g is not None and g < 0:
         g = None
     timing = (lambda: B.timing_block(dur='10')) if P.get('timing', True) else (lambda: None)
+    dec = (A.get('n0', 'decoy-story'), A.get('n0', 'decoy-item'))
     if level == 'story':
-        stories = [mk_story(sid, item_ids=('i1',) if P.get('rich') else (), lead=2, timing=timing())
-                   for sid in ids]
+        stories = [mk_story(sid, item_ids=('i1',), lead=2, timing=timing(), decoy=dec) for sid in ids]
         ro = B.running_order(stories, lead=P.get('lead', 2), gap=g, trail=P.get('trail', 0))
         if P.get('prehist'):
             B.prehist_replace(ro)
@@ -97,7 +97,7 @@ def pre_state(P, A):
     addr_id, other_id = A['p0'], A['p1']
     addressed = mk_story(addr_id, ids, lead=P.get('lead', 2), gap=g, extra_tail=bool(P.get('trail', 0)),
                          timing=timing())
-    other = mk_story(other_id, list(reversed(ids)), lead=2, timing=timing())
+    other = mk_story(other_id, list(reversed(ids)), lead=2, timing=timing(), decoy=dec)
     order = [addressed, other] if P.get('w', 0) == 0 else [other, addressed]
     ro = B.running_order(order, lead=2)
     if P.get('prehist'):
